@@ -18,8 +18,29 @@ Proof.
   rewrite join_cons by apply split_fuel_nonempty. rewrite IH.
   destruct (find_some d s i F) as (_ & E & _). symmetry. exact E.
 Qed.
+(* the empty delimiter: "", every character, "" *)
+Lemma join_empty_singles : forall s, join [] (map (fun c : N => [c]) s ++ [[]]) = s.
+Proof.
+  induction s as [|c s IH]; [reflexivity|]. cbn [map app].
+  rewrite join_cons by (destruct s; discriminate). rewrite IH. reflexivity.
+Qed.
+Theorem split_empty_delimiter : forall s r,
+  split_lit s [] = [] :: map (fun c => [c]) s ++ [[]] /\
+  replace_lit s [] r = r ++ flat_map (fun c => c :: r) s /\
+  b_matches (VStr s) (VStr []) = VBool true.
+Proof.
+  intros s r. split; [reflexivity|]. split; [|destruct s; reflexivity].
+  unfold replace_lit, split_lit. rewrite join_cons by (destruct s; discriminate). cbn [app]. f_equal.
+  induction s as [|c s IH]; [reflexivity|]. cbn [map app flat_map].
+  rewrite join_cons by (destruct s; discriminate). rewrite IH. reflexivity.
+Qed.
+Lemma split_lit_nonempty : forall s d, split_lit s d <> [].
+Proof. intros s [|c d]; [discriminate|apply split_fuel_nonempty]. Qed.
 Theorem split_join : forall s d, join d (split_lit s d) = s.
-Proof. intros s d. apply split_fuel_join. Qed.
+Proof.
+  intros s [|c d]; [|apply split_fuel_join]. unfold split_lit.
+  rewrite join_cons by (destruct s; discriminate). cbn [app]. apply join_empty_singles.
+Qed.
 
 (* ---- replace = split, then join with the replacement ---- *)
 Lemma replace_fuel_join : forall f p r s, replace_fuel f p r s = join r (split_fuel f p s).
@@ -29,7 +50,7 @@ Proof.
   rewrite join_cons by apply split_fuel_nonempty. rewrite IH. reflexivity.
 Qed.
 Theorem replace_is_split_join : forall s p r, replace_lit s p r = join r (split_lit s p).
-Proof. intros s p r. apply replace_fuel_join. Qed.
+Proof. intros s [|c p] r; [reflexivity|apply replace_fuel_join]. Qed.
 Theorem replace_by_itself : forall s p, replace_lit s p p = s.
 Proof. intros s p. rewrite replace_is_split_join. apply split_join. Qed.
 
@@ -37,8 +58,9 @@ Proof. intros s p. rewrite replace_is_split_join. apply split_join. Qed.
 Theorem no_occurrence : forall s p r, containsb s p = false ->
   split_lit s p = [s] /\ replace_lit s p r = s /\ b_matches (VStr s) (VStr p) = VBool false.
 Proof.
-  intros s p r H. unfold containsb in H. unfold split_lit, replace_lit. cbn [split_fuel replace_fuel b_matches str2].
-  unfold containsb. destruct (find p s); [discriminate|]. auto.
+  intros s p r H. destruct p as [|c p]; [unfold containsb in H; destruct s; cbn in H; discriminate|].
+  unfold containsb in H. unfold split_lit, replace_lit. cbn [split_fuel replace_fuel b_matches str2].
+  unfold containsb. destruct (find (c :: p) s); [discriminate|]. auto.
 Qed.
 
 (* ---- matches with a literal pattern: the pattern occurs somewhere ---- *)
@@ -46,7 +68,9 @@ Theorem matches_spec : forall s p, b_matches (VStr s) (VStr p) = VBool true <-> 
 Proof. exact contains_spec. Qed.
 Theorem matches_iff_split_splits : forall s d, containsb s d = true <-> (1 < length (split_lit s d))%nat.
 Proof.
-  intros s d. unfold containsb, split_lit. cbn [split_fuel]. destruct (find d s) as [i|].
+  intros s [|c0 d0].
+  { unfold containsb, split_lit. cbn [length]. rewrite app_length, map_length. cbn [length]. split; [intros _; lia|intros _; destruct s; reflexivity]. }
+  unfold containsb, split_lit. cbn [split_fuel]. set (d := c0 :: d0). destruct (find d s) as [i|].
   - split; auto. intros _. cbn [length].
     destruct (split_fuel (length s) d (skipn (i + length d) s)) eqn:E; [exact (False_ind _ (split_fuel_nonempty _ _ _ E))|cbn [length]; lia].
   - split; [discriminate|cbn [length]; lia].
@@ -81,14 +105,15 @@ Qed.
 Theorem split_equation : forall s d, d <> [] ->
   split_lit s d = match find d s with Some i => firstn i s :: split_lit (skipn (i + length d) s) d | None => [s] end.
 Proof.
-  intros s d Hd. unfold split_lit at 1. cbn [split_fuel]. destruct (find d s) as [i|] eqn:F; [|reflexivity]. f_equal.
-  pose proof (rest_shorter d s i Hd F). unfold split_lit. apply split_fuel_enough; auto; lia.
+  intros s d Hd. destruct d as [|c0 d0]; [contradiction|].
+  unfold split_lit at 1. cbn [split_fuel]. destruct (find (c0 :: d0) s) as [i|] eqn:F; [|reflexivity]. f_equal.
+  pose proof (rest_shorter (c0 :: d0) s i Hd F). unfold split_lit. apply split_fuel_enough; auto; lia.
 Qed.
 Theorem replace_equation : forall s p r, p <> [] ->
   replace_lit s p r = match find p s with Some i => firstn i s ++ r ++ replace_lit (skipn (i + length p) s) p r | None => s end.
 Proof.
   intros s p r Hp. rewrite replace_is_split_join, (split_equation s p Hp). destruct (find p s) as [i|]; [|reflexivity].
-  rewrite join_cons by apply split_fuel_nonempty. rewrite <- replace_is_split_join. reflexivity.
+  rewrite join_cons by apply split_lit_nonempty. rewrite <- replace_is_split_join. reflexivity.
 Qed.
 
 (* ---- no piece contains the delimiter ---- *)
@@ -117,7 +142,7 @@ Proof.
   - destruct Hp as [<-|[]]. unfold containsb. rewrite F. reflexivity.
 Qed.
 Theorem split_pieces_free : forall s d, d <> [] -> forall p, In p (split_lit s d) -> containsb p d = false.
-Proof. intros s d Hd. apply split_fuel_pieces; auto. Qed.
+Proof. intros s d Hd. destruct d as [|c0 d0]; [contradiction|]. apply split_fuel_pieces; auto. Qed.
 
 (* ---- the built-in forms and their domain ---- *)
 Theorem split_replace_matches_domain : forall a b c,
